@@ -156,6 +156,10 @@ class SMChart(BaseChart):
         """Raises NotImplementedError."""
         raise NotImplementedError
 
+    def clear(self) -> None:
+        """Raises NotImplementedError."""
+        raise NotImplementedError
+
     def __getitem__(self, property):
         if property in SM_CHART_PROPERTIES:
             return getattr(self, property.lower())
